@@ -43,6 +43,8 @@ structure DState where
   raw : R.Raw Nat Nat := R.Raw.new
   rawKind : Nat := 0
   rawDbg : Bool := false
+  /-- a failing operation on a large RawTable ran on the only reference to it (see `rawMut`) -/
+  rawLost : Bool := false
   /-- abstract reply mode: handles are printed as canonical diagrams (indices renumbered in visit
   order) plus the first equal handle; state snapshots are suppressed -/
   abs : Bool := false
@@ -217,6 +219,24 @@ def showEx : Except Nat Nat → String
 The manager is taken out of the driver state before an operation runs and put back afterwards, and
 handle tables are pushed to only while nothing else refers to them: the big arrays are then uniquely
 referenced and updated in place (a 2^20-cell table would otherwise be copied by every operation). -/
+
+/-- a mutating RawTable operation.  Small tables (all the adversarial cases) run on a shared
+reference, so a failing operation leaves the table as it was.  Large tables are taken out of the
+driver state first so that the slot array is updated in place; should such an operation fail, the
+table is gone and every later reply says so (never a silently wrong state). -/
+def rawMut {β : Type} (d : DState) (f : R.Raw Nat Nat → R.Out (R.Raw Nat Nat × β)) (sh : β → String) :
+    DState × String :=
+  if d.rawLost then (d, "state-lost") else
+  if d.raw.slots.size ≤ 1024 then
+    match f d.raw with
+    | .ok (t, r) => ({ d with raw := t }, sh r)
+    | o => (d, outS o (fun _ => ""))
+  else
+    let raw := d.raw
+    let d := { d with raw := R.Raw.new }
+    match f raw with
+    | .ok (t, r) => ({ d with raw := t }, sh r)
+    | o => ({ d with rawLost := true }, outS o (fun _ => "") ++ " state-lost")
 
 def hOf (env : Array Ref) (t : String) : Option Ref := t.toNat?.bind (fun i => env[i]?)
 def hsOf (env : Array Ref) (ts : List String) : Option (List Ref) := ts.mapM (hOf env)
@@ -487,14 +507,13 @@ def step (d : DState) (line : String) : DState × String :=
   -- RawTable
   | ["raw.new", kind, dbg] =>
     match kind.toNat? with
-    | some k => ({ d with raw := R.Raw.new, rawKind := k, rawDbg := dbg == "1" }, "ok")
+    | some k => ({ d with raw := R.Raw.new, rawKind := k, rawDbg := dbg == "1", rawLost := false }, "ok")
     | none => bad
   | ["raw.insert", k, v] =>
     match k.toNat?, v.toNat? with
     | some k, some v =>
-      match R.insert (rawHash d.rawKind) d.rawDbg d.raw k v with
-      | .ok (t, r) => ({ d with raw := t }, showEx r)
-      | o => (d, outS o (fun _ => ""))
+      let kind := d.rawKind; let dbg := d.rawDbg
+      rawMut d (fun t => R.insert (rawHash kind) dbg t k v) showEx
     | _, _ => bad
   | ["raw.get", k] =>
     match k.toNat? with
@@ -509,27 +528,24 @@ def step (d : DState) (line : String) : DState × String :=
   | ["raw.fof", k] =>
     match k.toNat? with
     | some k =>
-      match R.findOrFree (rawHash d.rawKind) d.rawDbg d.raw k with
-      | .ok (t, r) => ({ d with raw := t }, showEx r)
-      | o => (d, outS o (fun _ => ""))
+      let kind := d.rawKind; let dbg := d.rawDbg
+      rawMut d (fun t => R.findOrFree (rawHash kind) dbg t k) showEx
     | none => bad
   | ["raw.remove", k] =>
     match k.toNat? with
     | some k =>
-      match R.remove (rawHash d.rawKind) d.rawDbg d.raw k with
-      | .ok (t, r) => ({ d with raw := t }, match r with | some v => "some " ++ toString v | none => "none")
-      | o => (d, outS o (fun _ => ""))
+      let kind := d.rawKind; let dbg := d.rawDbg
+      rawMut d (fun t => R.remove (rawHash kind) dbg t k)
+        (fun r => match r with | some v => "some " ++ toString v | none => "none")
     | none => bad
   | ["raw.clear"] =>
-    match R.clear d.raw with
-    | .ok t => ({ d with raw := t }, "ok")
-    | o => (d, outS o (fun _ => ""))
+    rawMut d (fun t => match R.clear t with | .ok t' => .ok (t', ()) | .hang => .hang | .ub => .ub | .panic => .panic)
+      (fun _ => "ok")
   | ["raw.reserve", n] =>
     match n.toNat? with
     | some n =>
-      match R.reserve d.raw n with
-      | .ok t => ({ d with raw := t }, "ok")
-      | o => (d, outS o (fun _ => ""))
+      rawMut d (fun t => match R.reserve t n with | .ok t' => .ok (t', ()) | .hang => .hang | .ub => .ub | .panic => .panic)
+        (fun _ => "ok")
     | none => bad
   | ["raw.iter"] => (d, outS (R.iter d.rawDbg d.raw) showNatList)
   | ["raw.len"] => (d, toString d.raw.len)
